@@ -285,6 +285,9 @@ func (sim) Execute(env *core.Env, p *core.Plan) {
 	for _, k := range core.SortedKeys(rep.SiteHits) {
 		env.Add("site."+k, int64(rep.SiteHits[k]))
 	}
+	if rep.Steps > 50 && (rep.SiteHits["lock:bbolt"] == 0 || rep.SiteHits["lock:wallet"]+rep.SiteHits["rlock:waddrmgr"] == 0) {
+		env.Infra("the binary was built without the instrumentation overlay / instrumented bbolt (no scheduler decisions at bbolt or wallet locks in %d steps)", rep.Steps)
+	}
 	env.State("sched:%x", rep.SchedHash)
 	env.Logf("steps=%d sched=%x", rep.Steps, rep.SchedHash)
 	if env.Verbose {
